@@ -37,6 +37,8 @@ import FianoModel.Uefi.ExactFrameFlash
 import FianoModel.Uefi.GuidLemmas
 import FianoModel.Uefi.EditTie
 import FianoModel.Uefi.ExactTie
+import FianoModel.Uefi.CodeTie   -- T1 code-as-code tie (wp-t1x): audited as a tie module of this check
+import FianoModel.Uefi.CodeTieGuid   -- T1 code-as-code tie (wp-t1x): audited as a tie module of this check
 
 namespace Fiano.Uefi.C03
 open Fiano Fiano.Uefi Fiano.Uefi.Exact
